@@ -155,6 +155,15 @@ def dispatch(P, chk):
         chk.require(got == {(meth, True)}, R_DISP, "BinaryOpExpr::eval_visit|%s" % op, b.loc(),
                     "operator %s dispatches to %s" % (op, sorted(got) or "nothing"),
                     "%s -> lhs.%s(rhs)" % (op, meth))
+    # nothing but the dispatched check_* result (or a propagated error) is ever returned
+    extra = []
+    for bb, v, rv in q.ok_err_assignments(b):
+        if v.startswith("call:") and (EV + "::check_" in v or v.endswith("from_residual")):
+            continue
+        extra.append("%s at %s" % (v, b.loc(bb)))
+    chk.require(not extra, R_DISP, "BinaryOpExpr::eval_visit|returns only check_* results", b.loc(),
+                "a binary operation can return without going through check_add/sub/mul/div: %s" % ", ".join(extra),
+                "every return is a check_* result or a propagated error")
     # unary
     ukey = "<okane_core::syntax::expr::UnaryOpExpr as okane_core::report::eval::Evaluable>::eval_visit"
     u = P.body(ukey)
